@@ -46,12 +46,13 @@ def find_def(tree, qualname):
 
 
 class Tr:
-    def __init__(self, atoms=None, field_reads=True, drop_targets=('self.fields',), consts=None):
+    def __init__(self, atoms=None, field_reads=True, drop_targets=('self.fields',), consts=None, float_scale=None):
         self.atoms = atoms or {}
         self.field_reads = field_reads
         self.drop_targets = drop_targets
         self.consts = consts or {}
         self.used_atoms = set()
+        self.float_scale = float_scale
 
     # ---- expressions
     def expr(self, e):
@@ -69,6 +70,10 @@ class Tr:
                 return 'EZ %s' % coq_z(v)
             if isinstance(v, str):
                 return 'ES %s' % coq_string(v)
+            if isinstance(v, float) and self.float_scale:
+                scaled = v * self.float_scale
+                if abs(scaled - round(scaled)) < 1e-9:
+                    return 'EZ %s' % coq_z(int(round(scaled)))
             raise Refusal('constant %r' % (v,))
         if isinstance(e, ast.Name):
             if e.id in self.consts:
@@ -159,7 +164,7 @@ class Tr:
         raise Refusal('statement %s' % ast.unparse(s).splitlines()[0])
 
 
-def function(relpath, qualname, coqname, atoms=None, skip_params=('self',), consts=None):
+def function(relpath, qualname, coqname, atoms=None, skip_params=('self',), consts=None, float_scale=None):
     """Coq text defining <coqname>_params and <coqname>_body."""
     tree, _ = load_module(relpath)
     fn = find_def(tree, qualname)
@@ -169,7 +174,7 @@ def function(relpath, qualname, coqname, atoms=None, skip_params=('self',), cons
     if a.vararg or a.kwarg or a.kwonlyargs or a.posonlyargs:
         raise Refusal('%s: unsupported parameter kinds' % qualname)
     params = [p.arg for p in a.args if p.arg not in skip_params]
-    tr = Tr(atoms=atoms, consts=consts)
+    tr = Tr(atoms=atoms, consts=consts, float_scale=float_scale)
     body = tr.stmts(fn.body)
     missing = set((atoms or {}).keys()) - tr.used_atoms
     if missing:
